@@ -6,6 +6,7 @@ import GoSQLXModel.Props.C15
 import GoSQLXModel.Props.C16
 import GoSQLXModel.Gen.Structure
 import GoSQLXModel.Proofs.ExprProgress
+import GoSQLXModel.Proofs.ExprTotal
 /-!
 # C01 — No input can crash, panic or hang any entry point
 
@@ -38,7 +39,9 @@ What the models carry, for every input:
   (OR, AND, comparison / BETWEEN / LIKE / IN / IS, `||`, additive, multiplicative, primary, call arguments, IN lists)
   hands back strictly fewer tokens than it was given when it succeeds, and no loop body hands back more than it was
   given: so every iteration of the ladder's `for p.isType(…)` loops consumes tokens and the statement loops cannot spin on
-  an expression.
+  an expression; `expression_ladder_returns` (`Proofs/ExprTotal.lean`) — and it *returns*: with fuel `10·n + 8` for a list
+  of `n` tokens the model's only artificial answer, out-of-fuel, never occurs — on every token list every level answers
+  a tree, an error or `unsupported`, so the recursion depth of the modelled `parseExpression` is linear in the input.
 
 **Partial**: the statement grammar below the loops (that `parseStatement` always moves forward or fails on every token
 list, including lists without an end marker) is modelled for the expression ladder only; it is covered by the child-process
@@ -72,6 +75,11 @@ theorem gen_parser_loops_leave_at_end :
 theorem expression_ladder_moves_forward (f d : Nat) (ts : List ExprParse.PTok) (e : ExprParse.Ex) (rest : List ExprParse.PTok)
     (h : ExprParse.pExpr f d ts = .ok e rest) : rest.length < ts.length :=
   ExprParse.pExpr_progress f d ts e rest h
+
+/-- the expression ladder returns on every token list: fuel linear in the number of tokens always suffices -/
+theorem expression_ladder_returns (d : Nat) (ts : List ExprParse.PTok) (f : Nat) (hf : 10 * ts.length + 8 ≤ f) :
+    ExprParse.pExpr f d ts ≠ .oof :=
+  ExprParse.pExpr_returns d ts f hf
 
 /-- non-vacuity: `a + ` followed by nothing fails rather than loops, `a + b )` stops before the parenthesis -/
 example : (ExprParse.pExpr 40 0 [⟨.ident, "a"⟩, ⟨.plus, "+"⟩]).canon = "ERR E2001" := by decide +kernel
